@@ -160,22 +160,24 @@ func rosterSpec() []*user {
 		return &user{Name: n, Pass: "pw-" + n + "-1", Perms: p, Created: p}
 	}
 	return []*user{
-		mk("uexp", pLogon, pAdmin, pCode, pSQL, pDSN, pTRead, pCustom), // owner of the short-lived tokens
-		mk("root2", pRoot),                   // administrator without ego.logon
-		mk("ulogon", pLogon),                 // logon only
-		mk("usrv", pLogon, pAdmin),           // server admin
-		mk("ucode", pLogon, pCode),           //
-		mk("usql", pLogon, pSQL),             //
-		mk("udsn", pLogon, pDSN),             //
-		mk("utread", pLogon, pTRead),         //
-		mk("ucustom", pLogon, pCustom),       //
-		mk("ucodesql", pLogon, pCode, pSQL),  //
-		mk("usqlonly", pSQL),                 // no logon
-		mk("usrvonly", pAdmin, pCode),        // no logon
-		mk("umany", pLogon, pAdmin, pCode, pSQL, pDSN, pTRead, pCustom), // everything but root
-		mk("urev", pLogon, pAdmin, pCode, pSQL, pDSN, pTRead, pCustom),  // owner of the revoked tokens
+		mk("root2", pRoot),                  // administrator without ego.logon
+		mk("ulogon", pLogon),                // logon only
+		mk("usrv", pLogon, pAdmin),          // server admin
+		mk("ucode", pLogon, pCode),          //
+		mk("usql", pLogon, pSQL),            //
+		mk("udsn", pLogon, pDSN),            //
+		mk("utread", pLogon, pTRead),        //
+		mk("ucustom", pLogon, pCustom),      //
+		mk("ucodesql", pLogon, pCode, pSQL), //
+		mk("usqlonly", pSQL),                // no logon
+		mk("usrvonly", pAdmin, pCode),       // no logon
+		mk("umany", pLogon, pAdmin, pCode, pSQL, pDSN, pTRead, pCustom),  // everything but root
+		mk("urev", pLogon, pAdmin, pCode, pSQL, pDSN, pTRead, pCustom),   // owner of the revoked tokens
 		mk("ughost", pLogon, pAdmin, pCode, pSQL, pDSN, pTRead, pCustom), // deleted after its tokens were issued
-		mk("udemo", pLogon, pAdmin, pSQL), // ego.server.admin and ego.sql removed after its token was issued
+		mk("udemo", pLogon, pAdmin, pSQL),                                // ego.server.admin and ego.sql removed after its token was issued
+		// last: revoking a token and changing a user purge the token cache, and
+		// one of the short-lived tokens must still be cached when it expires
+		mk("uexp", pLogon, pAdmin, pCode, pSQL, pDSN, pTRead, pCustom), // owner of the short-lived tokens
 	}
 }
 
@@ -1176,8 +1178,8 @@ func TestC20(t *testing.T) {
 			"a token of a deleted user is treated as authenticated-but-without-permissions; its reaching authentication-only handlers is labelled, not asserted",
 			"LightWeight(true) followed by Authentication(true) on a route that stays lightweight: docs contradict, labelled, not asserted",
 		},
-		Gen:      func(rt *rapid.T) Case { return genCase(rt, wd) },
-		Oracle:   wd.oracle,
+		Gen:    func(rt *rapid.T) Case { return genCase(rt, wd) },
+		Oracle: wd.oracle,
 		Fixed: func() []Case {
 			cs := fixedCases(wd)
 			if n, _ := strconv.Atoi(os.Getenv("C20_FIXED_EVERY")); n > 1 { // development aid
